@@ -71,9 +71,13 @@ theorem replaceInline_frame (text : Str) (e : Expand) : Pres Frame (replaceInlin
   have hm := macrosRender_frame rec env hs
   frame_start; unfold replaceInline; wp_go
 
+theorem replaceGroupText_frame (g : Str) (sp : Bool) (e : Expand) : Pres Frame (replaceGroupText rec env g sp e) := by
+  have hr := replaceInline_frame rec env hs
+  frame_start; unfold replaceGroupText; wp_go
+
 theorem replaceMatchGroup_frame (mt : Match) (e : Expand) (m : Match) :
     Pres Frame (replaceMatchGroup rec env mt e m) := by
-  have hr := replaceInline_frame rec env hs
+  have hr := replaceGroupText_frame rec env hs
   frame_start; unfold replaceMatchGroup; wp_go
 
 theorem replaceMatch_frame (mt : Match) (r : Str) (e : Expand) : Pres Frame (replaceMatch rec env mt r e) := by
